@@ -17,7 +17,7 @@ def run_one(args):
     sp = os.path.join(tmpdir, "s%d.json" % i)
     op = os.path.join(tmpdir, "o%d.json" % i)
     json.dump(sc, open(sp, "w"))
-    env = dict(os.environ, PYTHONPATH="%s:/repo/src" % HARNESS, PYTHONDONTWRITEBYTECODE="1")
+    env = dict(os.environ, PYTHONPATH="%s:%s/src" % (HARNESS, os.environ.get("VERIF_REPO", "/repo")), PYTHONDONTWRITEBYTECODE="1")
     try:
         p = subprocess.run([sys.executable, "-m", "vh.rt.worker", sp, op], env=env, capture_output=True, text=True,
                            timeout=sc.get("watchdog", 15) + 20)
